@@ -93,6 +93,11 @@ def run(ctx):
         ctx.add_tlc(cfg, res, note)
     for cfg, exp in NEGS.items():
         ctx.expect_neg(MOD, cfg, exp)
+    # the server's handle vector across worker replacements (what Stop is sent through)
+    res = ctx.model_check("server/ServerHandles.tla", "MC_handles.cfg", workers=2)
+    vlib.require_ok(res, "MC_handles.cfg")
+    ctx.add_tlc("MC_handles.cfg", res, "exhaustive: every sequence of <= 5 worker replacements, 3 workers, then Stop")
+    ctx.expect_neg("server/ServerHandles.tla", "NEG_handles_ByPosition.cfg", ["H_AllLiveOnce", "C06_EveryWorkerHearsStop"])
     scs = scenarios(ctx)
     summ, runs, accepted, rejects = validate(ctx, scs, "c06e2e")
     # a real-time rejection is repeated before it is believed (scheduling hiccups must not raise alarms)
